@@ -411,3 +411,160 @@ def CkdSeq(inp, tab, ev):
             objs.append(v if ok else None)
             res.append({"ok": True, "node": node_json(v)} if ok else {"ok": False, "exc": type(v).__name__})
     ev["res"] = {"ok": True, "v": res}
+
+
+# ------------------------------------------------------- C07 extended keys
+def _hash_of_emitted(tab, s):
+    """Hash256 of the body of a string the code emitted (for the spec's decode direction)"""
+    body = R.b58check_body(s) if isinstance(s, str) else None
+    if body is not None:
+        tab.hash256(body)
+
+
+@act
+def ExtSer(inp, tab, ev):
+    from . import refwallet as W
+    rn = ref_node(tab, inp["node"])
+    ver = int.from_bytes(bytes(inp["version"]), "big")
+    tab.hash256(W.payload(rn, ver, inp["kind"] == "prv"))
+    n = py_node(inp["node"])
+    if inp["kind"] == "prv":
+        ok, v = call(n.extended_private_key, ver)
+    else:
+        ok, v = call(n.extended_public_key, ver)
+    if ok:
+        _hash_of_emitted(tab, v)
+    ev["res"] = res_of(ok, v, T)
+
+
+def _key_oracles(tab, body, as_prv):
+    if len(body) == 78:
+        kd = body[45:]
+        if as_prv:
+            if kd[0] == 0 and 0 < int.from_bytes(kd[1:], "big") < R.N:
+                tab.ptc(kd[1:])
+        else:
+            tab.secnorm(kd)
+
+
+@act
+def ExtParse(inp, tab, ev):
+    from io import BytesIO
+    from btc_hd_wallet.bip32 import PrvKeyNode, PubKeyNode
+    cls = PrvKeyNode if inp["asPrv"] else PubKeyNode
+    if inp["form"] == "str":
+        s = untext(inp["s"])
+        arg = s
+        body = R.b58check_body(s)
+    else:
+        body = bytes(inp["s"])
+        arg = body if inp["form"] == "bytes" else BytesIO(body)
+    if body is not None:
+        tab.hash256(body)
+        _key_oracles(tab, body, inp["asPrv"])
+    ok, n = call(cls.parse, arg, inp["net"] == "test")
+
+    def view(n):
+        d = {"node": node_json(n), "version": B((n.parsed_version or 0).to_bytes(4, "big"))}
+        try:
+            again = n.extended_private_key(version=n.parsed_version) if inp["asPrv"] else \
+                n.extended_public_key(version=n.parsed_version)
+        except Exception:
+            again = "ERR"
+        d["again"] = T(again)
+        return d
+    if ok:
+        ok, n = call(view, n)       # a node whose key cannot be used counts as a failed parse
+    ev["res"] = res_of(ok, n)
+
+
+@act
+def Import(inp, tab, ev):
+    from btc_hd_wallet import BaseWallet
+    s = untext(inp["s"])
+    body = R.b58check_body(s)
+    if body is not None:
+        tab.hash256(body)
+        _key_oracles(tab, body, True)
+        _key_oracles(tab, body, False)
+    ok, w = call(BaseWallet.from_extended_key, s)
+    if ok:
+        ok, w = call(lambda: {"net": "test" if w.testnet else "main", "watch_only": bool(w.watch_only),
+                              "has_bip85": w.bip85 is not None, "node": node_json(w.master),
+                              "master_net": "test" if w.master.testnet else "main"})
+    ev["res"] = res_of(ok, w)
+
+
+# --------------------------------------------------------- C09 key encodings
+@act
+def PubOf(inp, tab, ev):
+    from btc_hd_wallet.keys import PrivateKey, PublicKey
+    k = bytes(inp)
+    tab.ptc(k)
+    tab.ptu(k)
+
+    def go():
+        pk = PrivateKey(k)
+        c, u = pk.K.sec(True), pk.K.sec(False)
+        return {"k": B(bytes(pk)), "secc": B(c), "secu": B(u),
+                "parsec": B(PublicKey.parse(c).sec()), "parseu": B(PublicKey.parse(u).sec())}
+    ok, v = call(go)
+    ev["res"] = res_of(ok, v)
+
+
+@act
+def PrivCtor(inp, tab, ev):
+    from btc_hd_wallet.keys import PrivateKey
+    v = bytes(inp["v"])
+    form = inp["form"]
+    if form == "bytes":
+        f = lambda: PrivateKey(v)
+    elif form == "parse":
+        f = lambda: PrivateKey.parse(v)
+    elif form == "int":
+        f = lambda: PrivateKey(int.from_bytes(v, "big"))
+    else:
+        f = lambda: PrivateKey.from_int(int.from_bytes(v, "big"))
+    ok, pk = call(f)
+    if ok:
+        ok, pk = call(lambda: {"k": B(bytes(pk)), "secc": B(pk.K.sec())})
+    ev["res"] = res_of(ok, pk)
+
+
+@act
+def Wif(inp, tab, ev):
+    from btc_hd_wallet.keys import PrivateKey
+    k = bytes(inp["k"])
+    payload = bytes([0xef if inp["net"] == "test" else 0x80]) + k + (b"\x01" if inp["compressed"] else b"")
+    tab.hash256(payload)
+
+    def go():
+        w = PrivateKey(k).wif(compressed=inp["compressed"], testnet=inp["net"] == "test")
+        ok2, back = call(PrivateKey.from_wif, w)
+        return {"wif": T(w), "back": {"ok": True, "k": B(bytes(back))} if ok2 else {"ok": False}}
+    ok, v = call(go)
+    ev["res"] = res_of(ok, v)
+
+
+@act
+def FromWif(inp, tab, ev):
+    from btc_hd_wallet.keys import PrivateKey
+    s = untext(inp)
+    body = R.b58check_body(s)
+    if body is not None:
+        tab.hash256(body)
+    ok, pk = call(PrivateKey.from_wif, s)
+    if ok:
+        ok, pk = call(lambda: {"k": B(bytes(pk))})
+    ev["res"] = res_of(ok, pk)
+
+
+@act
+def SecParse(inp, tab, ev):
+    from btc_hd_wallet.keys import PublicKey
+    s = bytes(inp)
+    tab.secnorm(s)
+    ok, pk = call(PublicKey.parse, s)
+    if ok:
+        ok, pk = call(lambda: {"secc": B(pk.sec(True))})
+    ev["res"] = res_of(ok, pk)
